@@ -67,7 +67,7 @@ func init() {
 	}
 	for _, k := range []string{"(*sync.Mutex).Lock", "(*sync.RWMutex).Lock", "(*sync.RWMutex).RLock", "(sync.Locker).Lock"} {
 		models[k] = acquire
-		modelEffects[k] = func(e *Exec, cc *ssa.CallCommon) []string { return e.lockEffects() }
+		modelEffects[k] = func(e *Exec, cc *ssa.CallCommon) []string { return e.lockEffectsFor(cc) }
 	}
 	for _, k := range []string{"(*sync.Mutex).Unlock", "(*sync.RWMutex).Unlock", "(*sync.RWMutex).RUnlock", "(sync.Locker).Unlock"} {
 		models[k] = release
